@@ -94,6 +94,13 @@ fn families(tier: &Tier) -> Vec<(Box<dyn Family>, u64)> {
             })),
             1,
         ),
+        // one solvable (or the root) constraining several version sets at once, all of them part of the
+        // conflict: the message lists them and their order must not depend on a hash container
+        (
+            Box::new(Decorated::new("F3 skeletons x constrains decorations", skeletons(), if q { 2 } else { 3 }, false, &|d| matches!(d, Deco::AddCons(..)))),
+            1,
+        ),
+        (Box::new(F9 { wide: true }), if q { 64 } else { 4 }),
     ]
 }
 
